@@ -129,7 +129,8 @@ theorem _root_.Cao.Native.StackSame.set {a b : VStack Val} (h : StackSame a b) (
 theorem _root_.Cao.Native.StackSame.clearUntil {a b : VStack Val} (h : StackSame a b) {i : Nat} (hi : i ≤ a.count) :
     StackSame (a.clearUntil i).1 (b.clearUntil i).1 ∧ (b.clearUntil i).2 = (a.clearUntil i).2 := by
   unfold VStack.clearUntil
-  exact ⟨⟨rfl, h.cap, fun j hj => h.slots j (by dsimp only at hj; omega)⟩, h.last⟩
+  exact ⟨⟨by dsimp only; rw [h.count], h.cap,
+    fun j hj => h.slots j (by dsimp only at hj; split at hj <;> omega)⟩, h.last⟩
 
 theorem _root_.Cao.Native.StackSame.popWOffset {a b : VStack Val} (h : StackSame a b) (off : Nat) :
     StackSame (a.popWOffset off).1 (b.popWOffset off).1 ∧ (b.popWOffset off).2 = (a.popWOffset off).2 := by
@@ -177,7 +178,8 @@ theorem mem_popN_contents {st : VStack Val} {n : Nat} {v : Val} (h : v ∈ (st.p
 
 theorem mem_clearUntil_contents {st : VStack Val} {k : Nat} (hk : k ≤ st.count) {v : Val}
     (h : v ∈ (st.clearUntil k).1.contents) : v ∈ st.contents :=
-  mem_contents_sub (st := st) (st' := (st.clearUntil k).1) hk (fun i _ => rfl) h
+  mem_contents_sub (st := st) (st' := (st.clearUntil k).1)
+    (by unfold VStack.clearUntil; dsimp only; split <;> omega) (fun i _ => rfl) h
 
 theorem mem_dataSet_contents {st : VStack Val} {i : Nat} {v w : Val}
     (h : w ∈ ({ st with data := st.data.set i v } : VStack Val).contents) : w = v ∨ w ∈ st.contents := by
